@@ -127,6 +127,7 @@ type c02Ledger struct {
 	expectIn                                     float64
 	clampLayers                                  int
 	interesting                                  bool
+	unstableKey                                  string
 	irrDay                                       int
 	irrN                                         float64
 }
@@ -190,6 +191,12 @@ func (l *c02Ledger) probe() *hermes.VerifProbe {
 			}
 			if g.Q1[N] < 0 {
 				l.c.Count("substeps_upward_bottom_flux", 1)
+			}
+			if g.C1NotStable != "" {
+				l.c.Count("substeps_flagged_unstable", 1)
+				if os.Getenv("C02_DEBUG") != "" {
+					fmt.Printf("UNSTABLE %s day %d substep %d\n", l.label, zeit, subd)
+				}
 			}
 			if g.AUFNASUM > l.a0 {
 				l.c.Count("substeps_with_uptake", 1)
@@ -303,7 +310,7 @@ func c02Run(raw json.RawMessage, c *mc.Ctx) {
 	for _, w := range ws {
 		p.Weather = e1Weather(warm, w, false)
 		writeWeather(root, p)
-		l := &c02Ledger{c: c, measDay: start + 1, label: fmt.Sprintf("word=%v", w), irrDay: l0.irrDay, irrN: l0.irrN}
+		l := &c02Ledger{c: c, measDay: start + 1, label: fmt.Sprintf("word=%v", w), irrDay: l0.irrDay, irrN: l0.irrN, unstableKey: fmt.Sprintf("%s gw=%d drain=%d/%g w=%g n=%g crop=%s fert=%s word=%v", sp.Base.Soil, sp.Base.GW, sp.Base.DrainDep, sp.Base.DrainFrac, sp.Base.InitW, sp.Base.InitN, sp.Base.Crop, sp.Fert, w)}
 		nv := len(c.Viol)
 		res := proj.Run(root, p.Args(root), l.probe())
 		c.Trace(1)
